@@ -141,14 +141,20 @@ impl Agg {
 /// original's backlog untouched). Returns (signature, message) of the first failure.
 pub fn c15_oracle(d: &Dg, agg: &Agg, nq: usize, nx: usize, evals: &mut u64) -> Option<(String, String)> {
     if !agg.positive {
-        *evals += 2;
-        let q = d.quantile(0.5);
-        let c = d.cdf(0.0);
-        if !q.is_nan() {
-            return Some(("empty quantile".into(), format!("empty digest: quantile(0.5) = {} (expected NaN)", q)));
+        // an empty digest returns NaN / 0 for every argument, the end points and infinities included
+        for q in [0.0, 0.25, 0.5, 1.0] {
+            *evals += 1;
+            let x = d.quantile(q);
+            if !x.is_nan() {
+                return Some(("empty quantile".into(), format!("empty digest: quantile({}) = {} (expected NaN)", q, x)));
+            }
         }
-        if c != 0.0 {
-            return Some(("empty cdf".into(), format!("empty digest: cdf(0) = {} (expected 0)", c)));
+        for x in [f64::NEG_INFINITY, f64::MIN, -1.0, 0.0, 1.0, f64::MAX, f64::INFINITY] {
+            *evals += 1;
+            let c = d.cdf(x);
+            if c != 0.0 {
+                return Some(("empty cdf".into(), format!("empty digest: cdf({}) = {} (expected 0)", x, c)));
+            }
         }
         return None;
     }
